@@ -31,6 +31,12 @@ func init() {
 func statSites(f *prog.Func) (reads, writes []ast.Node) {
 	info := f.Info()
 	ast.Inspect(f.Decl.Body, func(n ast.Node) bool {
+		if call, isCall := n.(*ast.CallExpr); isCall && prog.CalleeKey(info, call) == "builtin.delete" && len(call.Args) == 2 {
+			if k, _ := prog.FieldOf(info, call.Args[0]); k == "store.GCMgr.stat" {
+				writes = append(writes, call)
+			}
+			return true
+		}
 		ix, ok := n.(*ast.IndexExpr)
 		if !ok {
 			return true
@@ -38,6 +44,7 @@ func statSites(f *prog.Func) (reads, writes []ast.Node) {
 		if k, _ := prog.FieldOf(info, ix.X); k != "store.GCMgr.stat" {
 			return true
 		}
+		_ = ix
 		if as, ok := f.Parent(ix).(*ast.AssignStmt); ok {
 			for _, l := range as.Lhs {
 				if ast.Node(l) == ast.Node(ix) {
